@@ -691,8 +691,28 @@ Definition assign_trigger (s : uuids) (t : trigger_t) : res trigger_t :=
   Ok {| tr_type := tr_type t; tr_keywords := tr_keywords t; tr_channel := tr_channel t; tr_match := tr_match t;
         tr_flow := f; tr_groups := gs; tr_exclude := ex |}.
 
+(* existing.setdefault(group.name, group) ... existing.get(name): the first group of that name *)
+Fixpoint find_group (n : json) (gs : list group_t) : option group_t :=
+  match gs with
+  | [] => None
+  | g :: r => if json_eqb (g_name g) n then Some g else find_group n r
+  end.
+
+Definition no_attrs : list json := map (fun _ => JNull) group_optional_attrs.
+
+(* one entry of the rebuilt self.groups.  Repaired tree ("fix: validate() keeps query/status/
+   system/count of the container's groups"): the Group the container already holds under that
+   name, with the resolved uuid assigned; a fresh Group(name, uuid) for a group that is only
+   referenced.  Before the repair: always Group(name, uuid).  The regenerated probe
+   [validate_keeps_group_attrs] (Gen/Tables.v) tells which code is under check. *)
+Definition listed_group (held : list group_t) (kv : json * json) : group_t :=
+  {| g_name := fst kv; g_uuid := snd kv;
+     g_opt := if validate_keeps_group_attrs
+              then match find_group (fst kv) held with Some g => g_opt g | None => no_attrs end
+              else no_attrs |}.
+
 (* RapidProContainer.validate(): update_global_uuids, then self.groups rebuilt from the
-   group dictionary as Group(name, uuid) *)
+   group dictionary: one entry per name, in the dictionary's order *)
 Definition validate (c : container_t) : res container_t :=
   do os <- occs_container c;
   do s0 <- foldM apply_occ os {| flow_dict := []; group_dict := [] |};
@@ -701,8 +721,7 @@ Definition validate (c : container_t) : res container_t :=
   do camps <- mapM (assign_campaign s) (ct_campaigns c);
   do trigs <- mapM (assign_trigger s) (ct_triggers c);
   Ok {| ct_campaigns := camps; ct_fields := ct_fields c; ct_flows := flows;
-        ct_groups := map (fun kv => {| g_name := fst kv; g_uuid := snd kv;
-                                       g_opt := map (fun _ => JNull) group_optional_attrs |}) (group_dict s);
+        ct_groups := map (listed_group (ct_groups c)) (group_dict s);
         ct_site := ct_site c; ct_triggers := trigs; ct_version := ct_version c |}.
 
 (* load : json -> result err container — what render() sees *)
